@@ -363,6 +363,11 @@ def run(ctx):
     ctx.guard("clamp", "ed25519", lambda: C13.check_clamp(ctx, P))
     ctx.guard("sign", "signature", lambda: C13.check_signature(ctx, P, "ed25519::signature", "extended_secret(keypair_private(arg2))", "keypair_public(arg2)"))
     ctx.guard("sign", "signature_extended", lambda: C13.check_signature(ctx, P, "ed25519::signature_extended", "arg2", "extended_to_public(arg2)"))
+    # the digests underneath: padding position and zero fill, length fields, sponge padding (structural rules shared with C01)
+    from . import C01 as _C01
+    ctx.guard("padding", "standard_padding", lambda: _C01.check_standard_padding(ctx, P))
+    ctx.guard("length-field", "md", lambda: _C01.check_length_fields(ctx, P))
+    ctx.guard("sponge-pad", "sha3", lambda: _C01.check_sponge_pad(ctx, P))
     from . import sc32
     ctx.guard("sc", "scalar32::reduce", lambda: sc32.check_scalar32(ctx, P2, "reduce"))
     ctx.guard("sc", "scalar32::muladd", lambda: sc32.check_scalar32(ctx, P2, "muladd"))
